@@ -43,27 +43,44 @@ def stJson (c : Cfg) (s : St) : Json :=
     ("halt", haltJson s.halt), ("stopped", toJson (stopped c s)),
     ("phys", ratToJson (perf s).1), ("logical", ratToJson (perf s).2)]
 
-/-- per-iteration trace of the loop the pipeline runs (same configuration as `samplesPipeline`):
-for every iteration that entered the loop body `[len(output) before, nb_gen asked or null]`, plus
-the size asked for the first batch. -/
-def pipelineTrace (i : SamplesIn) (ops : List Shot) : Except String Json := do
+/-- configuration of the loop the pipeline runs (same steps as `samplesPipeline`), if it runs one -/
+def pipelineCfg (i : SamplesIn) : Option (Cfg × Nat × Nat) :=
   match computeSamples i.maxSamples i.maxShots with
   | .ok (some (p + 1)) =>
     match computeSamplesWithPerf i.filter (p + 1) i.prePerf i.zpp i.maxShots, i.maxSamples with
-    | .ok (p' + 1, sh'), some ms =>
-      let c : Cfg := ⟨ms, sh', i.hasCallback⟩
-      let rec go (s : St) (ops : List Shot) (acc : Array Json) : Array Json × St :=
-        match ops with
-        | [] => (acc, s)
-        | op :: rest =>
-          let (s', ev) := step c s op
-          go s' rest (if ev.ran then acc.push (Json.arr #[toJson s.out, optNatJson ev.asked]) else acc)
-      let (tr, sEnd) := go (init (i.firstBatch (p' + 1))) ops #[]
-      if sEnd ≠ loop c (i.firstBatch (p' + 1)) ops then throw "driver inconsistency"
-      return Json.mkObj [("prepare", toJson (p' + 1)), ("iters", Json.arr tr),
-        ("stopped", toJson (stopped c sEnd)), ("shotsLimit", optNatJson sh')]
-    | _, _ => return Json.null
-  | _ => return Json.null
+    | .ok (p' + 1, sh'), some ms => some (⟨ms, sh', i.hasCallback⟩, i.firstBatch (p' + 1), p' + 1)
+    | _, _ => none
+  | _ => none
+
+/-- A scripted source answers per REQUEST (`batches[r]`: `none` = as many as asked), the model wants
+the batch per ITERATION: build the operation list while stepping.  Returns the operations and the
+trace `[len(output) before, nb_gen asked or null]` of every iteration that entered the loop body. -/
+def buildOps (c : Cfg) (batches : List (Option Nat)) :
+    List (Bool × Outcome) → St → Nat → Array Shot → Array Json → Array Shot × Array Json
+  | [], _, _, ops, tr => (ops, tr)
+  | (cancel, o) :: rest, s, r, ops, tr =>
+    let b := match batches.getD r none with
+      | some k => k
+      | none => nbGen c s
+    let op : Shot := ⟨cancel, b, o⟩
+    let (s', ev) := step c s op
+    buildOps c batches rest s' (if ev.asked.isSome then r + 1 else r) (ops.push op)
+      (if ev.ran then tr.push (Json.arr #[toJson s.out, optNatJson ev.asked]) else tr)
+
+/-- what the first-batch request asks for (`estimate_weights_from_source` is called even when the
+rescaled number of samples to prepare is 0) -/
+def pipelinePrepare (i : SamplesIn) : Option Nat :=
+  match computeSamples i.maxSamples i.maxShots with
+  | .ok (some (p + 1)) =>
+    match computeSamplesWithPerf i.filter (p + 1) i.prePerf i.zpp i.maxShots with
+    | .ok (p', _) => some p'
+    | _ => none
+  | _ => none
+
+def optNatOfJson (v : Json) : Except String (Option Nat) :=
+  match v with
+  | .null => return none
+  | _ => return some (← v.getNat?)
 
 def handleReq (j : Json) : Except String Json := do
   let op ← strOf j "op"
@@ -108,21 +125,45 @@ def handleReq (j : Json) : Except String Json := do
       | some k => k
       | none => if src then n else 0
     let i : SamplesIn := ⟨← optNat j "ms", ← optNat j "sh", ← natOf j "filter", pre, zpp, fb, ← boolOf j "cb"⟩
-    let ops ← shotsOf j "ops"
+    let outs ← (← arrOf j "outcomes").toList.mapM fun v => do outcomeOf (← v.getStr?)
+    let cancels ← (← arrOf j "cancels").toList.mapM fun v => v.getBool?
+    let batches ← (← arrOf j "batches").toList.mapM optNatOfJson
+    let script := (List.range outs.length).zipWith (fun k o => (cancels.getD k false, o)) outs
+    let (ops, tr) := match pipelineCfg i with
+      | some (c, first, _) =>
+        let (ops, tr) := buildOps c batches script (init first) 0 #[] #[]
+        (ops.toList, tr)
+      | none => ([], #[])
+    let trace := Json.mkObj [("prepare", optNatJson (pipelinePrepare i)), ("iters", Json.arr tr)]
     match samplesPipeline i ops with
     | .error "domain" => throw "domain"
     | .error "unreachable" => throw "unreachable"
     | .error e =>
       -- the requests made before the failure are still observable
-      return Json.mkObj [("raise", .str e), ("trace", ← pipelineTrace i ops)]
+      return Json.mkObj [("raise", .str e), ("trace", trace)]
     | .result n ph lg st =>
-      let extra ← match st with
-        | none => pure [("loop", Json.null)]
-        | some s => do
-          let tr ← pipelineTrace i ops
-          pure [("loop", Json.mkObj [("shots", toJson s.shots), ("halt", haltJson s.halt),
-            ("notSel", toJson s.notSel), ("notSelPhys", toJson s.notSelPhys)]), ("trace", tr)]
-      return Json.mkObj ([("n", toJson n), ("phys", ratToJson ph), ("logical", ratToJson lg)] ++ extra)
+      let lp := match st with
+        | none => Json.null
+        | some s => Json.mkObj [("shots", toJson s.shots), ("halt", haltJson s.halt),
+            ("notSel", toJson s.notSel), ("notSelPhys", toJson s.notSelPhys),
+            ("stopped", toJson ((pipelineCfg i).map fun (c, _, _) => stopped c s))]
+      return Json.mkObj [("n", toJson n), ("phys", ratToJson ph), ("logical", ratToJson lg),
+        ("loop", lp), ("trace", trace)]
+  | "classify" =>
+    -- one sampled state through the filter / heralds / post-selection of `_noisy_sampling`
+    let hs ← (← arrOf j "heralds").toList.mapM fun v => do
+      match v with
+      | .arr #[m, x] => pure (← m.getNat?, ← x.getNat?)
+      | _ => throw "bad herald"
+    let st ← natList (← j.getObjVal? "state")
+    if hs.any (fun h => st.length ≤ h.1) then throw "domain"
+    if ¬ (hs.map (·.1)).Nodup then throw "domain"
+    let o := shotOutcome (← boolOf j "fixed") (← natOf j "filter") hs (← boolOf j "ps") st
+    let letter := match o with
+      | .phys => "p"
+      | .logic => "l"
+      | .sel => "s"
+    return Json.mkObj [("outcome", .str letter), ("emitted", toJson (emitted hs (← boolOf j "keep") st))]
   | "p2sc" =>
     let ps ← ratList (← j.getObjVal? "ps")
     let ns ← ratList (← j.getObjVal? "ns")
